@@ -1,3 +1,152 @@
-From Thunder Require Import Lib.Json Federation.Merge.
-Theorem placeholder : True. Proof. exact I. Qed.
-Print Assumptions placeholder.
+(** C09 -- the merged gateway schema is executable by every live version of every service.
+
+    Model: Federation/Merge.v (mergeTypeRefs, mergeInputFields, mergeFields, mergePossibleTypes,
+    mergeEnumValues, mergeTypes, mergeSchemas, mergeSchemaSlice, processSchemaVersions,
+    MergeIntrospectionSchemas of federation/merge_schemas.go and federation/schema.go, and the
+    validity of a query against an introspection schema).  [valid_query sok strict s q]:
+    [strict = true] is the GraphQL rule, [strict = false] what graphql.PrepareQuery accepts
+    (compared with PrepareQuery on every run). *)
+From Coq Require Import List String Bool ZArith.
+From Thunder Require Import Lib.Json Federation.Merge Federation.MergeProofsBase Federation.MergeProofsTref
+  Federation.MergeProofs Federation.MergeProofsValid Federation.MergeProofsMore.
+Import ListNotations.
+Open Scope string_scope.
+
+(** Soundness of the intersection, for any number of versions and every query: what validates against
+    mergeSchemaSlice(versions, Intersection) validates against every version. *)
+Theorem intersection_sound :
+  forall (sok : string -> json -> bool) (vs : list schema) (m : schema) (q : list sel),
+    (forall v, In v vs -> wf_schema v = true) ->
+    merge_slice Intersection vs = Some m ->
+    valid_query sok true m q = true ->
+    forall v, In v vs -> valid_query sok true v q = true.
+Proof. exact MergeProofsValid.intersection_sound. Qed.
+Print Assumptions intersection_sound.
+
+(** ... and what validates under the GraphQL rule is accepted by thunder's PrepareQuery (its lax reading). *)
+Theorem strict_valid_is_accepted :
+  forall (sok : string -> json -> bool) (s : schema) (q : list sel),
+    valid_query sok true s q = true -> valid_query sok false s q = true.
+Proof. exact MergeProofsMore.valid_query_mono. Qed.
+Print Assumptions strict_valid_is_accepted.
+
+(** Structure behind it: everything the intersection of two schemas offers (types, fields, arguments with
+    at-least-as-strict types, required arguments, input fields, union members, enum values) both provide. *)
+Theorem intersection_refines_both :
+  forall a b m, wf_schema a = true -> wf_schema b = true ->
+    merge_schemas Intersection a b = Some m -> refines m a /\ refines m b.
+Proof. exact MergeProofs.intersection_refines. Qed.
+Print Assumptions intersection_refines_both.
+
+(** The merge keeps schemas well-formed, so the fold can be iterated (used by the n-ary theorems). *)
+Theorem merge_preserves_wf :
+  forall md a b r, wf_schema a = true -> wf_schema b = true ->
+    merge_schemas md a b = Some r -> wf_schema r = true.
+Proof. exact MergeProofsValid.merge_schemas_wf. Qed.
+Print Assumptions merge_preserves_wf.
+
+(** Nullability lattice, n-ary, by induction over the fold of mergeTypeRefs: at every nesting level an
+    input position is NON_NULL iff it is in some side, an output position iff it is in every side. *)
+Theorem nullability_lattice_nary :
+  forall (is_input : bool) (l : list tref) (t c : tref),
+    merge_trefs is_input t l = Some c ->
+    (forall x, In x l -> List.length (levels x) = List.length (levels t)) /\
+    List.length (levels c) = List.length (levels t) /\
+    forall k, nth k (levels c) false =
+              if is_input then existsb (fun x => nth k (levels x) false) (t :: l)
+              else forallb (fun x => nth k (levels x) false) (t :: l).
+Proof. exact MergeProofsTref.merge_trefs_levels. Qed.
+Print Assumptions nullability_lattice_nary.
+
+(** The same rule read at schema level, either mode: a field both sides have gets the level-wise AND of
+    their NON_NULLs, an argument both sides have the level-wise OR. *)
+Theorem nullability_at_schema_level :
+  forall md a b m ty ta tb f fa fb,
+    wf_schema a = true -> wf_schema b = true -> merge_schemas md a b = Some m ->
+    find_type a ty = Some ta -> find_type b ty = Some tb -> t_kind ta = "OBJECT" ->
+    find_field (t_fields ta) f = Some fa -> find_field (t_fields tb) f = Some fb ->
+    exists mt mf, find_type m ty = Some mt /\ find_field (t_fields mt) f = Some mf /\
+      levels (f_type mf) = zipb andb (levels (f_type fa)) (levels (f_type fb)) /\
+      forall x xa xb, find_ifield (f_args fa) x = Some xa -> find_ifield (f_args fb) x = Some xb ->
+        exists mx, find_ifield (f_args mf) x = Some mx /\
+                   levels (if_type mx) = zipb orb (levels (if_type xa)) (levels (if_type xb)).
+Proof. exact MergeProofsMore.merged_field_nullability. Qed.
+Print Assumptions nullability_at_schema_level.
+
+(** Completeness of the union at field level, for any number of services. *)
+Theorem union_complete :
+  forall l acc m, wf_schema acc = true -> (forall v, In v l -> wf_schema v = true) ->
+    merge_fold Union acc l = Some m ->
+    forall v ty f, In v (acc :: l) -> has_field v ty f = true -> has_field m ty f = true.
+Proof. exact MergeProofsMore.union_slice_complete. Qed.
+Print Assumptions union_complete.
+
+(** Commutativity.  Full statement (NOT proved):
+      forall md a b, wf_schema a = true -> wf_schema b = true ->
+        (every possibleTypes entry has kind OBJECT) -> merge_schemas md a b = merge_schemas md b a
+    and, for the fold, invariance under permutation of the list *when both orders succeed*
+    (it is false without that guard, see [intersection_error_depends_on_order_refuted]).
+    Proved: commutativity of mergeTypeRefs, the only place where the two sides are treated
+    asymmetrically by the code apart from "first one wins" on equal names.  Missing: that
+    [sorted_names] is a canonical order (needs the total-order laws of [str_ltb]) and the lifting through
+    the five by-name merges.  The harness checks order / renaming independence of
+    MergeIntrospectionSchemas on every generated case instead. *)
+Theorem merge_commutative_partial :
+  forall is_input a b, merge_tref is_input a b = merge_tref is_input b a.
+Proof. exact MergeProofsTref.merge_tref_comm. Qed.
+Print Assumptions merge_commutative_partial.
+
+(** Closure.  Full statement (NOT proved):
+      forall md a b m, wf_schema a = true -> wf_schema b = true -> closed a = true -> closed b = true ->
+        merge_schemas md a b = Some m -> closed m = true.
+    Proved: the part the soundness theorem uses -- a field, argument or input field that survives keeps the
+    named type (root) of both sides.  The harness checks [closed] on every merged output whose inputs are
+    closed. *)
+Theorem closure_partial :
+  forall is_input a b c, merge_tref is_input a b = Some c ->
+    root_tref c = root_tref a /\ root_tref c = root_tref b.
+Proof. exact MergeProofsTref.merge_tref_root. Qed.
+Print Assumptions closure_partial.
+
+(** The union of *services* is not sound in the same sense (DESIGN F17, confirmed on the implementation,
+    recorded as known findings): an optional argument only one of two services serving a field declares
+    survives; the query using it is valid against the union and invalid -- even for thunder's lax parser,
+    "unexpected args" -- against the other service. *)
+Theorem union_keeps_unknown_argument_refuted :
+  exists a b m q,
+    wf_schema a = true /\ wf_schema b = true /\ closed a = true /\ closed b = true /\
+    merge_schemas Union a b = Some m /\ has_field a "Query" "f" = true /\
+    valid_query thunder_scalar_ok true m q = true /\ valid_query thunder_scalar_ok true a q = false /\
+    valid_query thunder_scalar_ok false a q = false.
+Proof. exact MergeProofsMore.union_keeps_unknown_argument. Qed.
+Print Assumptions union_keeps_unknown_argument_refuted.
+
+(** "The outcome does not depend on how versions are named": false for the error outcome (known finding). *)
+Theorem intersection_error_depends_on_order_refuted :
+  exists v1 v2 v3 m,
+    wf_schema v1 = true /\ wf_schema v2 = true /\ wf_schema v3 = true /\
+    merge_slice Intersection [v1; v3; v2] = Some m /\ merge_slice Intersection [v1; v2; v3] = None.
+Proof. exact MergeProofsMore.intersection_error_depends_on_order. Qed.
+Print Assumptions intersection_error_depends_on_order_refuted.
+
+(** Non-vacuity: two well-formed, closed versions that differ (a field removed, an argument made required,
+    an output made nullable, an enum value dropped), their intersection, and a query with an argument, an
+    enum value and a nested selection that is valid against it. *)
+Definition ex_enum vs := mk_itype "E" "ENUM" [] [] [] vs [].
+Definition ex_obj fs := mk_itype "O" "OBJECT" fs [] [] [] [].
+Definition ex_v1 : schema :=
+  [ex_enum ["V1"; "V2"]; sc_int; ex_obj [mk_field "x" (TNonNull INT) []; mk_field "y" INT []];
+   query_of [mk_field "o" (TNonNull (TNamed "OBJECT" "O")) [mk_ifield "e" (TNamed "ENUM" "E"); mk_ifield "n" INT]]].
+Definition ex_v2 : schema :=
+  [ex_enum ["V1"]; sc_int; ex_obj [mk_field "x" INT []];
+   query_of [mk_field "o" (TNamed "OBJECT" "O") [mk_ifield "e" (TNonNull (TNamed "ENUM" "E"))]]].
+Definition ex_q : list sel := [SField "o" "o" [("e", JStr "V1")] [SField "x" "x" [] []]].
+
+Example ex_nonvacuous :
+  wf_schema ex_v1 = true /\ wf_schema ex_v2 = true /\ closed ex_v1 = true /\ closed ex_v2 = true /\
+  merge_slice Intersection [ex_v1; ex_v2] =
+    Some [ex_enum ["V1"]; ex_obj [mk_field "x" INT []];
+          query_of [mk_field "o" (TNamed "OBJECT" "O") [mk_ifield "e" (TNonNull (TNamed "ENUM" "E"))]]; sc_int] /\
+  (exists m, merge_slice Intersection [ex_v1; ex_v2] = Some m /\ valid_query thunder_scalar_ok true m ex_q = true) /\
+  valid_query thunder_scalar_ok true ex_v1 ex_q = true /\ valid_query thunder_scalar_ok true ex_v2 ex_q = true.
+Proof. vm_compute. repeat split; try reflexivity. eexists; split; reflexivity. Qed.
